@@ -3,6 +3,7 @@ import TakVerif.Props.C20_size5
 import TakVerif.Props.C20_size6
 import TakVerif.Props.C20_size7
 import TakVerif.Props.C20_size8
+import TakVerif.Props.C20_glue
 
 /-! # C20 over all board sizes: the per-size theorems combined
 
@@ -12,7 +13,7 @@ on 6×6, 7×7 and 8×8 it goes through the frame theorem (`holds_of_frame`, `Pro
 first stones that are neither on a centre square nor next to one are never looked at or moved, so that
 the 1260 / 2352 / 4032 pairs of first stones reduce to 157 / 31 / 157 placements on those squares. -/
 namespace C20
-open Tak Tak.FPA Spec.FPA Proofs.FPA Proofs.FPAMini
+open Tak Tak.FPA Tak.Glue Spec.FPA Proofs.FPA Proofs.FPAMini
 
 /-- **Double-stack variant, every board size 4..8, both colours** (`fpa_doubleStack_statement`): for every
 opening — all placements of the two first stones, every move of the generator that is legal by the rule
@@ -64,6 +65,26 @@ theorem fpa_all (var : Variant) (size : Nat) (hs : size ∈ [4, 5, 6, 7, 8]) (co
   · exact fpa_centre size hs color hc
   · exact fpa_doubleStack size hs color hc
   · exact fpa_cairn size hs color hc
+
+/-- **`Friendly.GetMove` under the double-stack or the cairn rule, every board size 4..8, both colours**: every
+move returned during the scripted opening (6 plies and the check of the last one) is the zero move or legal by
+the rule book — `friendly_move_legal` (`Props/C20_glue.lean`) with its hypothesis `Holds` discharged by
+`fpa_doubleStack` and `fpa_cairn` (there it was available for 4×4 and 5×5 only: `friendly_move_legal_4x4_5x5`). -/
+theorem friendly_move_legal_all_sizes (var : Variant) (hv : var ≠ .center) (color : Color)
+    (hc : color ∈ [Color.white, Color.black]) (size : Nat) (hs : size ∈ [4, 5, 6, 7, 8])
+    (k : Nat) (hk : k ≤ 6) (t : St Spec.State) (hreach : Reach specBoard var color k (init size) t)
+    (g : GameRec) (p : Pos) (o : CheckOracle) (f' : Option (Variant × Rule)) (a : Action)
+    (hcol : g.color = color) (hview : viewOfPos p = viewOf t.cur) (hmv : p.toMove = t.cur.toMove)
+    (hprev : prevViews g = t.prev.map (fun (q, m) => (viewOf q, m)))
+    (h : Glue.friendlyGetMove (some (var, t.rule)) g p o = .ok (f', a))
+    (ans : Move) (hsearch : a.searches = true → (Spec.step t.cur (Spec.decode ans)).isSome = true) :
+    a.returned ans = zeroMove ∨ (Spec.step t.cur (Spec.decode (a.returned ans))).isSome = true := by
+  have hH : Holds var color size 6 := by
+    cases var
+    · exact absurd rfl hv
+    · exact fpa_doubleStack size hs color hc
+    · exact fpa_cairn size hs color hc
+  exact friendly_move_legal var color size 6 hH k hk t hreach g p o f' a hcol hview hmv hprev h ans hsearch
 
 /-! ### a concrete instance on the 8×8 board
 
